@@ -4,6 +4,7 @@ against /repo's working tree in a scratch directory that is removed afterwards).
 turns a pass into a failure and never suppresses a failed obligation."""
 import json
 import os
+import uuid
 import shutil
 import subprocess
 import sys
@@ -20,7 +21,7 @@ def run_harness(mode, timeout=600, hooks=False):
     src = os.path.join(ROOT, 'replay', 'src', 'main.rs')
     if not os.path.exists(src):
         return {'found': False, 'witness': None, 'log': 'no replay harness'}
-    scratch = os.path.join(os.environ.get('VERIF_SCRATCH', '/var/tmp'), 'verif-replay-%d' % os.getpid())
+    scratch = os.path.join(os.environ.get('VERIF_SCRATCH', '/var/tmp'), 'verif-replay-%d-%s' % (os.getpid(), uuid.uuid4().hex[:8]))
     try:
         os.makedirs(os.path.join(scratch, 'src'), exist_ok=True)
         shutil.copy(src, os.path.join(scratch, 'src', 'main.rs'))
